@@ -2254,7 +2254,11 @@ impl<'store> AnnotationStore {
                         self.remove(resource)?;
                     }
                     for annotation in remove_annotations {
-                        self.remove(annotation)?;
+                        //(an earlier removal may have taken this one along already:
+                        // annotations on a removed annotation are removed with it)
+                        if self.has(annotation) {
+                            self.remove(annotation)?;
+                        }
                     }
                     for (set, key) in remove_keys {
                         self.remove_key(set, key, true)?;
